@@ -55,6 +55,10 @@ def main():
             cs.cleanup()
     if hasattr(mon, "finish"):
         mon.finish(acc)
+    from . import drive
+
+    acc["counters"]["divergence_audit:readonly_commands_seen"] = drive.AUDIT["n"]
+    acc["counters"]["divergence_audit:repeated_in_subprocess"] = drive.AUDIT["done"]
     acc["classes"] = sorted(acc["classes"])
     acc["wall"] = time.monotonic() - t0
     with open(out, "w") as f:
